@@ -333,4 +333,131 @@ theorem constJs_intStr (i : Int) : constJs (.s (intStr i)) = .s (intStr i) := by
   simp only [constJs, startsWith_quote_false _ (intStr_head i)]
   simp
 
+/-! ### strings without special characters -/
+
+/-- printable ASCII other than the backslash and the quote -/
+def plainChar (c : Char) : Bool := 32 ≤ c.toNat && c.toNat < 127 && c != '\\' && c != '"'
+
+theorem unicodeEscapeChar_plain (c : Char) (h : plainChar c = true) : unicodeEscapeChar c = [c] := by
+  simp only [plainChar, Bool.and_eq_true, decide_eq_true_eq, bne_iff_ne, ne_eq] at h
+  obtain ⟨⟨⟨h1, h2⟩, h3⟩, h4⟩ := h
+  have ht : c ≠ '\t' := by intro e; subst e; simp at h1
+  have hn : c ≠ '\n' := by intro e; subst e; simp at h1
+  have hr : c ≠ '\r' := by intro e; subst e; simp at h1
+  simp [unicodeEscapeChar, h3, ht, hn, hr, h1, h2]
+
+theorem unicodeEscape_plain (s : Str) (h : ∀ c ∈ s, plainChar c = true) : unicodeEscape s = s := by
+  induction s with
+  | nil => rfl
+  | cons c cs ih =>
+    simp only [unicodeEscape, List.flatMap_cons] at ih ⊢
+    rw [unicodeEscapeChar_plain c (h c (by simp)), ih (fun x hx => h x (by simp [hx]))]
+    rfl
+
+theorem findFrom_skip (t rest : Str) (c : Char) (v : Str) (k limit : Nat) (ht : ∀ x ∈ t, x ≠ c)
+    (hr : findFrom rest (c :: v) (k + t.length) limit = none) : findFrom (t ++ rest) (c :: v) k limit = none := by
+  induction t generalizing k with
+  | nil => simpa using hr
+  | cons x xs ih =>
+    rw [List.cons_append, findFrom]
+    split
+    · rfl
+    · have hx : x ≠ c := ht x (by simp)
+      have : ((c :: v).isPrefixOf (x :: (xs ++ rest))) = false := by
+        simp [List.isPrefixOf]; intro e; exact absurd e.symm hx
+      simp only [this]
+      apply ih (k + 1) (fun y hy => ht y (by simp [hy]))
+      have : k + 1 + xs.length = k + (x :: xs).length := by simp; omega
+      rw [this]; exact hr
+
+theorem replLoop_nonpos (k v n : Str) (idx : Nat) (pos : Int) (h : ¬ pos > 0) : replLoop k v n idx pos = n := by
+  rw [replLoop]; simp [h]
+
+/-- no occurrence of the first character of `v` inside the quotes: the pass leaves the text alone -/
+theorem replPass_plain (k : Str) (c : Char) (v : Str) (s : Str) (hs : ∀ x ∈ s, x ≠ c) (hc : c = '"' ∨ c ≠ '"') :
+    let n := '"' :: (s ++ ['"'])
+    replLoop k (c :: v) n 1 (pyFind n (c :: v) 1 (n.length - 1)) = n := by
+  intro n
+  apply replLoop_nonpos
+  have hfind : findFrom (s ++ ['"']) (c :: v) 1 (s.length + 1) = none := by
+    apply findFrom_skip s ['"'] c v 1 (s.length + 1) hs
+    rw [findFrom]
+    by_cases hq : c = '"'
+    · subst hq
+      have : 1 + s.length + ('"' :: v).length > s.length + 1 := by simp; omega
+      simp only [this, if_true]
+    · have hp : ((c :: v).isPrefixOf ['"']) = false := by
+        simp [List.isPrefixOf]; intro e; exact absurd e hq
+      simp only [hp]
+      split
+      · rfl
+      · simp [findFrom]
+  have : pyFind n (c :: v) 1 (n.length - 1) = -1 := by
+    simp only [pyFind, n, List.length_cons, List.length_append, List.length_nil, List.drop_succ_cons, List.drop_zero]
+    have e1 : min (s.length + (0 + 1) + 1 - 1) (s.length + (0 + 1) + 1) = s.length + 1 := by omega
+    have e2 : ¬ (1 > s.length + (0 + 1) + 1) := by omega
+    simp only [e1, e2, if_false, hfind]
+  rw [this]; decide
+
+theorem replacementConstants_value : replacementConstants =
+    [(S "QUOTE", S "\""), (S "BACKSPACE", S "\\x08"), (S "ENTER", S "\\x03"), (S "RETURN", S "\\r"), (S "TAB", S "\\t")] := by decide
+
+theorem predefinedConstants_value : predefinedConstants =
+    [(S "\"\"", S "EMPTY"), (S "\"\\x08\"", S "BACKSPACE"), (S "\"\\x03\"", S "ENTER"), (S "\"\"\"", S "QUOTE"),
+     (S "\"\\r\"", S "RETURN"), (S "\"\\t\"", S "TAB")] := by decide
+
+theorem plain_ne_quote (s : Str) (h : ∀ c ∈ s, plainChar c = true) : ∀ x ∈ s, x ≠ '"' := by
+  intro x hx e; subst e; have := h _ hx; simp [plainChar] at this
+
+theorem plain_ne_backslash (s : Str) (h : ∀ c ∈ s, plainChar c = true) : ∀ x ∈ s, x ≠ '\\' := by
+  intro x hx e; subst e; have := h _ hx; simp [plainChar] at this
+
+/-- a text without quotes, backslashes and non-printable characters is written between quotes unchanged -/
+theorem replaceChars_plain (s : Str) (h : ∀ c ∈ s, plainChar c = true) :
+    replaceCharsWithLingoConstants ('"' :: (s ++ ['"'])) = '"' :: (s ++ ['"']) := by
+  have hq := plain_ne_quote s h
+  have hb := plain_ne_backslash s h
+  unfold replaceCharsWithLingoConstants
+  rw [replacementConstants_value]
+  simp only [List.foldl_cons, List.foldl_nil, S]
+  have p1 := replPass_plain "QUOTE".toList '"' [] s hq (Or.inl rfl)
+  have p2 := replPass_plain "BACKSPACE".toList '\\' ['x', '0', '8'] s hb (Or.inr (by decide))
+  have p3 := replPass_plain "ENTER".toList '\\' ['x', '0', '3'] s hb (Or.inr (by decide))
+  have p4 := replPass_plain "RETURN".toList '\\' ['r'] s hb (Or.inr (by decide))
+  have p5 := replPass_plain "TAB".toList '\\' ['t'] s hb (Or.inr (by decide))
+  simp only at p1 p2 p3 p4 p5
+  have e1 : "\"".toList = ['"'] := by decide
+  have e2 : "\\x08".toList = ['\\', 'x', '0', '8'] := by decide
+  have e3 : "\\x03".toList = ['\\', 'x', '0', '3'] := by decide
+  have e4 : "\\r".toList = ['\\', 'r'] := by decide
+  have e5 : "\\t".toList = ['\\', 't'] := by decide
+  rw [e1, e2, e3, e4, e5, p1, p2, p3, p4, p5]
+
+theorem lingoStrBody_plain (s rest : Str) (h : ∀ x ∈ s, x ≠ '"') : lingoStrBody (s ++ '"' :: rest) = some (s, rest) := by
+  induction s with
+  | nil => simp [lingoStrBody]
+  | cons c cs ih =>
+    have hc : c ≠ '"' := h c (by simp)
+    simp only [List.cons_append, lingoStrBody, hc, if_false]
+    rw [ih (fun x hx => h x (by simp [hx]))]
+    rfl
+
+theorem evalLingoLit_quoted (s : Str) (h : ∀ x ∈ s, x ≠ '"') : evalLingoLit ('"' :: (s ++ ['"'])) = some s := by
+  simp only [evalLingoLit, List.length_cons, evalLingoAux, lingoTerm, lingoStrBody_plain s [] h]
+  simp
+
+theorem predefined_lookup_plain (s : Str) (h : ∀ c ∈ s, plainChar c = true) (hne : s ≠ []) :
+    predefinedConstants.lookup ('"' :: (s ++ ['"'])) = none := by
+  rw [predefinedConstants_value]
+  have hq := plain_ne_quote s h
+  have hb := plain_ne_backslash s h
+  cases s with
+  | nil => exact absurd rfl hne
+  | cons c cs =>
+    have h1 : c ≠ '"' := hq c (by simp)
+    have h2 : c ≠ '\\' := hb c (by simp)
+    have e1 : (c == '"') = false := by simpa using h1
+    have e2 : (c == '\\') = false := by simpa using h2
+    simp [List.lookup, S, e1, e2]
+
 end Drx.Lscr
